@@ -1,7 +1,7 @@
 (* C02 -- a tick updates exactly the roots and the components whose inputs changed.
    Property theorems only. *)
-From TV Require Import Base Model.Wiring Model.Ticker Model.Component
-  Proofs.WiringP Proofs.TickerP Proofs.ComponentP.
+From TV Require Import Base Model.Wiring Model.Ticker Model.Component Model.Sim
+  Proofs.WiringP Proofs.TickerP Proofs.ComponentP Proofs.ExtentP.
 
 (* Every dispatch in every run of a tick, under any answer order, is
    - an update (Input) exactly when the component is a root or at least one of its wired input
@@ -48,6 +48,24 @@ Theorem C02_diff_history : forall st chg outs,
   d_last (fst (fst (on_tick st chg outs))) = outs /\
   snd (on_tick st chg outs) = diff_outputs (d_last st) outs.
 Proof. intros. split; reflexivity. Qed.
+
+(* the same on the whole-simulation model, at every nesting level: the extent bookkeeping of a tick
+   never decides anything by itself -- a tick is the fold of [step'], in which a component (device,
+   system simulation or pseudo component) is processed exactly when it is a root or a change has
+   been routed to it in this tick, and is not touched otherwise *)
+Theorem C02_sim_update_iff_root_or_changed : forall cfg devf inner lv time roots ext s,
+  let a := fold_left (step' devf inner lv (l_conns (level_of cfg lv)) time roots ext) (all_of (level_of cfg lv))
+                     {| co_s := s; co_in := []; co_out := []; co_obs := [] |} in
+  tick_with cfg devf inner lv time roots ext s = (co_s a, co_out a, co_obs a).
+Proof. exact tick_with_core. Qed.
+
+Theorem C02_sim_untouched : forall devf inner lv conns time roots ext a ck,
+  nonempty (get_d (fst ck) (co_in a)) || memb (fst ck) roots = false ->
+  step' devf inner lv conns time roots ext a ck = a.
+Proof.
+  intros devf inner lv conns time roots ext a ck H. unfold step'. cbv zeta.
+  match goal with |- (if ?b then _ else _) = _ => replace b with false by (symmetry; exact H) end. reflexivity.
+Qed.
 
 Example C02_example :
   run_dc dc_init [([], [(1%positive, 5%Z)]); ([], []); ([], [(1%positive, 5%Z)]); ([], [(1%positive, 5%Z)])]
